@@ -86,6 +86,7 @@ pub fn run(ctx: &mut Ctx) {
             }
             let mut model = Model::new();
             let mut ok = true;
+            let sparse = rng.chance(1, 3);
             for (step, &oi) in seq.iter().enumerate() {
                 let e = &offers[oi];
                 let ev = E::of(e);
@@ -104,6 +105,40 @@ pub fn run(ctx: &mut Ctx) {
                     offer_remote(&mut store, ns, e)
                 };
                 ctx.count(if local { "offers_local" } else { "offers_remote" }, 1);
+                // A full dump goes through a snapshot, which commits the open write batch. In a
+                // sparse run most steps are therefore observed through the non-committing lookup
+                // only, so that several offers (and a refused call) share one uncommitted batch;
+                // the full dump follows at the latest after the last step.
+                if sparse && step + 1 < seq.len() && !rng.chance(1, 3) {
+                    if rng.chance(1, 4) {
+                        let missing = crate::gen::namespace(99).id();
+                        let r = store.register_useful_peer(missing, [7u8; 32]);
+                        ctx.count("refused_calls_inside_a_batch", r.is_err() as u64);
+                    }
+                    ctx.count("steps_observed_without_committing", 1);
+                    let looked = store.get_exact(ns, iroh_docs::AuthorId::from(&ev.author), &ev.key, true).ok().flatten();
+                    let want = model.map.get(&(ev.author, ev.key.clone()));
+                    if got != (match expected { Some(n) => Offered::Stored(n), None => Offered::Superseded }) || looked.as_ref() != want {
+                        ctx.violation(
+                            case,
+                            if looked.as_ref() != want { "lookup-inside-the-batch-differs-from-specification" } else { "offer-result-differs-from-specification" },
+                            json!({
+                                "perm": pi, "step": step, "path": if local {"local"} else {"remote"},
+                                "backend": format!("{backend:?}"),
+                                "offered": ev.short(),
+                                "state_before": before.short(),
+                                "got_result": format!("{got:?}"),
+                                "expected_result": format!("{expected:?}"),
+                                "looked_up": looked.as_ref().map(|x| E::of(x).short()),
+                                "expected_lookup": want.map(|x| E::of(x).short()),
+                                "sequence": seq.iter().map(|&i| E::of(&offers[i]).short()).collect::<Vec<_>>(),
+                            }),
+                        );
+                        ok = false;
+                        break;
+                    }
+                    continue;
+                }
                 let actual = match dump_model(&mut store, ns) {
                     Ok(m) => m,
                     Err(err) => {
